@@ -423,6 +423,8 @@ def main(tier):
     rep.attempt(check_field_pairing, rep, mod)
     rep.attempt(check_resume, rep, mod)
     rep.attempt(check_resume_offset, rep, mod)
+    import probepure
+    rep.attempt(probepure.check_avail_unsigned, rep, mod, field_offsets('struct isal_zstream', ['avail_in', 'avail_out']), field_offsets('struct inflate_state', ['avail_in', 'avail_out']))
     rep.attempt(check_magic, rep, mod)
     import acct
     rep.attempt(acct.check, rep, 'z', 4, field_offsets('struct isal_zstream', ['next_in', 'avail_in', 'total_in', 'next_out', 'avail_out', 'total_out']), field_offsets('struct inflate_state', ['next_in', 'avail_in', 'next_out', 'avail_out', 'total_out']), mod, only={'isal_write_gzip_header', 'isal_write_zlib_header'}, suffix='HDR-WRITERS')
